@@ -88,10 +88,11 @@ class Rational(primitives.Expression):
         try:
             t = traits.common_traits(self.Denominator, newother.Denominator)
             newden = t.lcm(self.Denominator, newother.Denominator)
-            newnum = self.Numerator * newden/self.Denominator + \
-                     newother.Numerator * newden/newother.Denominator
+            # (all of these divisions are exact)
+            newnum = self.Numerator * newden//self.Denominator + \
+                     newother.Numerator * newden//newother.Denominator
             gcd = t.gcd(newden, newnum)
-            return primitives.quotient(newnum/gcd, newden/gcd)
+            return primitives.quotient(newnum//gcd, newden//gcd)
         except traits.NoTraitsError:
             return primitives.Expression.__add__(self, other)
         except traits.NoCommonTraitsError:
@@ -117,8 +118,9 @@ class Rational(primitives.Expression):
             gcd_1 = t.gcd(self.Numerator, newother.Denominator)
             gcd_2 = t.gcd(newother.Numerator, self.Denominator)
 
-            new_num = self.Numerator/gcd_1 * newother.Numerator/gcd_2
-            new_denom = self.Denominator/gcd_2 * newother.Denominator/gcd_1
+            # (all of these divisions are exact)
+            new_num = (self.Numerator//gcd_1) * (newother.Numerator//gcd_2)
+            new_denom = (self.Denominator//gcd_2) * (newother.Denominator//gcd_1)
 
             if not (new_denom-1):
                 return new_num
